@@ -136,7 +136,8 @@ TLC_JAR = "/opt/veriftools/tla/tla2tools.jar"
 def run_tlc(module, cfg, wd, env_extra=None, workers=1, timeout=900, simulate=None, depth=None,
             xmx="3g", deque=True, extra=None):
     """runs TLC on spec/<module>.tla with spec/<cfg>; returns dict(rc, out, states, distinct, ok)"""
-    meta = os.path.join(wd, "tlc-%s-%d" % (module, os.getpid()))
+    import uuid
+    meta = os.path.join(wd, "tlc-%s-%s" % (module, uuid.uuid4().hex[:10]))
     os.makedirs(meta, exist_ok=True)
     jopts = "-Xss1g -Xmx%s" % xmx
     if deque:
